@@ -10,8 +10,8 @@
   * `returns_fresh`     — output side: if every site of the declaration is copied, no script of native
                           mutations started from the returned value changes any pre-existing cell, hence
                           (`returns_fresh_observe`) any observation of the instance / class.
-  * `retained_fresh`    — input side: no script started from the caller's arguments changes the region the
-                          operation built (the new instance's payload), hence any observation of it.
+  * `retained_fresh_observe` — input side: if every site is copied, no script started from the caller's
+                          arguments changes any observation of what the operation built (the new instance's payload).
   * `tables_ok`         — every row of today's table is safe, out of the statement's scope, or a listed finding.
   * `C19_statement`     — the full statement (false today: `C19_statement_fails_today`);
     `C19_partial`       — the statement for declarations that avoid exactly the listed finding rows;
@@ -79,7 +79,7 @@ def roots : Item → List Nat
   | .atom _ => []
 
 theorem newClosed_init (h : Heap) : NewClosed h.next h :=
-  fun a ha hlt => absurd (Nat.lt_of_lt_of_le hlt ha) (Nat.lt_irrefl _)
+  fun _ ha hlt => absurd (Nat.lt_of_lt_of_le hlt ha) (Nat.lt_irrefl _)
 
 /-- everything reachable from the result of a fully copying walk was allocated by that walk -/
 theorem result_in_new_region {M : Kind → Cat → Mode} {fuel : Nat} {s : Shape} (hs : safeShape M s = true)
@@ -125,10 +125,11 @@ theorem returns_fresh_observe (M : Kind → Cat → Mode) (fuel : Nat) (s : Shap
   subst ea
   exact hi
 
-/-- **retained_fresh** (input side): the declaration's sites are all copied ⇒ for EVERY script of native
-    mutations applied to objects reachable from the caller's arguments `K` (all of which existed before the
-    call), the region the operation built — the new instance and its whole payload — is unchanged. -/
-theorem retained_fresh (M : Kind → Cat → Mode) (fuel : Nat) (s : Shape) (hs : safeShape M s = true)
+/-- input side, frame half (holds for ANY table): no script of native mutations applied to objects reachable
+    from the caller's arguments `K` (all of which existed before the call) writes into a cell the operation
+    allocated.  What makes the instance safe is `retained_fresh_observe` below: when every site copies, the
+    instance's payload lies entirely inside that region. -/
+theorem retained_fresh (M : Kind → Cat → Mode) (fuel : Nat) (s : Shape)
     (h : Heap) (src : Item) (h' : Heap) (inst : Item) (e : transfer M fuel s h src = (h', some inst))
     (cb : ClosedBelow h.next h) (K : List Nat) (hK : ∀ r, r ∈ K → r < h.next)
     (acts : List Act) (adm : AdmissibleAll h' K acts) :
@@ -144,6 +145,9 @@ theorem retained_fresh (M : Kind → Cat → Mode) (fuel : Nat) (s : Shape) (hs 
   intro a h1 h2
   exact sp.1 a ⟨h1, h2⟩
 
+/-- **retained_fresh** (input side): the declaration's sites are all copied ⇒ for EVERY script of native
+    mutations applied to objects reachable from the caller's arguments, every observation of what the
+    operation built (the new instance with its whole payload, to any depth) is unchanged. -/
 theorem retained_fresh_observe (M : Kind → Cat → Mode) (fuel : Nat) (s : Shape) (hs : safeShape M s = true)
     (h : Heap) (src : Item) (h' : Heap) (inst : Item) (e : transfer M fuel s h src = (h', some inst))
     (cb : ClosedBelow h.next h) (K : List Nat) (hK : ∀ r, r ∈ K → r < h.next)
@@ -151,7 +155,7 @@ theorem retained_fresh_observe (M : Kind → Cat → Mode) (fuel : Nat) (s : Sha
     observeN n (runScript h' K acts).1 inst = observeN n h' inst := by
   have fs := transfer_fresh h.next M fuel s hs h src h' inst (Nat.le_refl _) (newClosed_init h) e
   apply observe_agree (fun a => h.next ≤ a ∧ a < h'.next)
-    (fun a ha => retained_fresh M fuel s hs h src h' inst e cb K hK acts adm a ha.1 ha.2)
+    (fun a ha => retained_fresh M fuel s h src h' inst e cb K hK acts adm a ha.1 ha.2)
     (fun a ha k hk => fs.1 a ha.1 ha.2 k hk) n
   intro a ea
   exact fs.2 a ea
